@@ -56,9 +56,10 @@ var (
 	verOf  = map[string]string{"t1": ":v1.0.0", "t2": ":v2.0.0",
 		"d1": "@sha256:" + strings.Repeat("1a", 32), "d2": "@sha256:" + strings.Repeat("2b", 32)}
 	// the object name the initializer gives a package it installs itself
-	defNameOf = map[string]string{"r1": "acme-provider-one", "r2": "acme-provider-two"}
-	kindOf    = map[string]string{"prov": "Provider", "conf": "Configuration", "func": "Function"}
-	absKind   = map[string]string{"Provider": "prov", "Configuration": "conf", "Function": "func"}
+	defNameOf     = map[string]string{"r1": "acme-provider-one", "r2": "acme-provider-two"}
+	preloadedName = "aaa-preloaded" // (sorts before every other package name of the scenarios)
+	kindOf        = map[string]string{"prov": "Provider", "conf": "Configuration", "func": "Function"}
+	absKind       = map[string]string{"Provider": "prov", "Configuration": "conf", "Function": "func"}
 )
 
 func image(h, r, v string) string { return hostOf[h] + repoOf[r] + verOf[v] }
@@ -263,7 +264,7 @@ type world struct {
 // generated once, from pool keys that the scenarios themselves never get.
 type initialMaterial struct {
 	ca0, other, rival pair
-	leaf       map[string]pair
+	leaf              map[string]pair
 }
 
 var (
@@ -402,6 +403,14 @@ func (w *world) populate() {
 			Spec: pkgv1beta1.DeploymentRuntimeConfigSpec{ServiceAccountTemplate: &pkgv1beta1.ServiceAccountTemplate{Metadata: &pkgv1beta1.ObjectMeta{Labels: map[string]string{"team": "a"}}}}})
 	}
 	if in.Inst.N != "none" {
+		// Next to it, and listed before it: a package of the same kind that was preloaded into the package cache (pull policy
+		// Never) - its spec.package is a file name, not an OCI reference. The installer must step over it (added after the seeded
+		// change C20-m10 - indexing the installed packages stops at the first source that does not parse - was missed).
+		w.s.Put(&unstructured.Unstructured{Object: map[string]any{
+			"apiVersion": "pkg.crossplane.io/v1", "kind": kindOf[in.Kind],
+			"metadata": map[string]any{"name": preloadedName},
+			"spec":     map[string]any{"package": "Provider-Foo.xpkg", "packagePullPolicy": "Never"},
+		}})
 		name := defNameOf["r1"]
 		if in.Inst.N == "custom" {
 			name = customName
